@@ -98,6 +98,12 @@ ROUND3 = {
  'C19': ' Round 3: a service with the GET proxy layer: HEAD / OPTIONS / TRACE / PUT / DELETE / PATCH stay 405 and reach no handler on mapped paths too.',
 }
 
+# additions of round 5 (preemption points, hook H8)
+ROUND5 = {
+ 'C04': ' Round 5: every fourth run carries preemption points (hook H8): accept() / reject() may be descheduled - for a drawn number of scheduler turns or 1-5 ms of virtual time - right after their response has been queued, which is the place where a thread of a multi-threaded runtime can lose the CPU between two statements that have no await between them; in those runs a client may unsubscribe the moment it holds the accepting response.',
+ 'C06': ' Round 5: every fourth run carries preemption points (hook H8) inside accept() / reject() (descheduled after the response has been queued, for a drawn number of scheduler turns or 1-5 ms of virtual time) together with a client that unsubscribes the moment it holds the accepting response: such an unsubscribe must be answered true (found defect 24); an unsubscribe for a guessed id that is decided between the call and the return of accept() may be answered either way.',
+}
+
 NA = {
  'C13': 'method registry: RpcModule mutation needs &mut self, histories are sequential; no schedule, clock, I/O or fault can influence the outcome - not a simulation target (plain model-based property testing would decide it)',
  'C14': 'host filter: the decision is a pure function of (allow-list, Host header, URI); nothing for a scheduler or fault injector to vary',
@@ -140,7 +146,7 @@ def main():
           'evidence_file': f'/verif/evidence/{pid}.json',
           'replay_cmd_template': './check replay {path}',
           'engine': engine,
-          'level_claimed': {'category': level, 'text': text + ROUND2.get(pid, '') + ROUND3.get(pid, ''), 'design_ref': ref},
+          'level_claimed': {'category': level, 'text': text + ROUND2.get(pid, '') + ROUND3.get(pid, '') + ROUND5.get(pid, ''), 'design_ref': ref},
           'level_note': note,
           'technique': tech,
         })
